@@ -4,7 +4,7 @@
     to_full_tensor / _build_contraction_tree / contract_tree / permute_axes /
     perform_tree_contraction, with numpy.einsum modelled by its defining sum [einsum_sem];
     it is tied to /repo by the exact correspondence run of checks/C07.py on every run. *)
-From Qib Require Import TN.TNTreeCheck Base.Inst.
+From Qib Require Import TN.TNTreeCheck TN.TNConsistentConv Base.Inst.
 
 (** (a) single-shot contraction.  For every network satisfying the incidence invariant, every
     commutative ring of scalars and all tensor data: what contract_einsum (the literal port:
@@ -21,6 +21,20 @@ Theorem C07_einsum_is_defining_sum :
       forall x, in_range shp x -> snd (to_full_tensor v am) x = defining_sum n data x.
 Proof. intros K L n data v am W H. exact (contract_einsum_correct n data v am W H). Qed.
 Print Assumptions C07_einsum_is_defining_sum.
+
+(** "every consistent tensor network" = every network the library's own check accepts:
+    is_consistent n = true implies the invariant WF (TN.TNConsistentConv.is_consistent_WF; [Rep]:
+    dict keys are unique and len(shape) = len(bids), which no Python object of these classes
+    can violate), so (a) holds from is_consistent() == True. *)
+Theorem C07_einsum_is_defining_sum_from_is_consistent :
+  forall (K : Scalar) (L : ScalarLaws K) (n : net) (data : Z -> list nat -> K) v am,
+    Rep n -> is_consistent n = true -> contract_einsum n data = Some (v, am) ->
+    exists shp, shape n = Some shp /\ fst (to_full_tensor v am) = shp /\
+      forall x, in_range shp x -> snd (to_full_tensor v am) x = defining_sum n data x.
+Proof.
+  intros K L n data v am R C H. exact (contract_einsum_correct n data v am (is_consistent_WF n R C) H).
+Qed.
+Print Assumptions C07_einsum_is_defining_sum_from_is_consistent.
 
 (** ... and it does return: numpy.einsum needs one operand, i.e. a tensor or an open axis
     (the network without tensors and open axes is the KNOWN-FINDING of this property) *)
